@@ -84,6 +84,7 @@ class Engine:
         self.uf = {}
         self.specfns = {}
         self.inline_depth = 0
+        self._stringy_cache = {}
         self.facts = []                # valid ground instances of builtin axioms met on the way (shared by all paths)
         self._fact_keys = set()
         for k, p in BUILTIN_EXC.items():
@@ -169,10 +170,27 @@ class Engine:
 
     # ---------------------------------------------------------------- solver helpers
     def feasible(self, st):
+        """path feasibility (pruning only: `unknown` counts as feasible).  Two cheap tiers: the string-free
+        projection of the path condition (sound: weaker), then the full condition under a small budget."""
         self.feas_checks += 1
         s = self._solver
+        lia = [p for p in st.pc if not self._stringy(p)]
+        if len(lia) != len(st.pc):
+            s.push()
+            try:
+                s.set('timeout', 300)
+                for p in lia:
+                    s.add(p)
+                if s.check() == z3.unsat:
+                    return False
+            finally:
+                s.pop()
+            return True
+        else:
+            budget = 400
         s.push()
         try:
+            s.set('timeout', budget)
             for a in self.global_axioms:
                 s.add(a)
             for a in self.facts:
@@ -183,6 +201,52 @@ class Engine:
         finally:
             s.pop()
         return r != z3.unsat
+
+    def entails_lia(self, st, goal):
+        """cheap entailment from the string-free part of the path condition (used to simplify index arithmetic)"""
+        s = self._solver
+        s.push()
+        try:
+            s.set('timeout', 200)
+            for p in st.pc:
+                if not self._stringy(p):
+                    s.add(p)
+            s.add(z3.Not(goal))
+            return s.check() == z3.unsat
+        finally:
+            s.pop()
+
+    def _stringy(self, t):
+        k = t.get_id()
+        c = self._stringy_cache.get(k)
+        if c is None:
+            c = False
+            todo = [t]
+            seen = set()
+            n = 0
+            while todo and not c:
+                x = todo.pop()
+                xid = x.get_id()
+                if xid in seen:
+                    continue
+                seen.add(xid)
+                n += 1
+                if n > 3000:
+                    c = True
+                    break
+                if z3.is_quantifier(x):
+                    c = True
+                    break
+                if z3.is_app(x):
+                    sk = x.sort().kind()
+                    if sk in (z3.Z3_SEQ_SORT, z3.Z3_RE_SORT) and x.decl().kind() != z3.Z3_OP_UNINTERPRETED:
+                        c = True
+                        break
+                    if x.decl().kind() == z3.Z3_OP_SEQ_LENGTH and x.arg(0).num_args() == 0:
+                        continue      # len(variable) is plain arithmetic for the purposes of pruning
+                    todo.extend(x.children())
+            self._stringy_cache[k] = c
+        return c
 
     def entails(self, st, goal):
         s = self._solver
@@ -195,6 +259,7 @@ class Engine:
             for p in st.pc:
                 s.add(p)
             s.add(z3.Not(goal))
+            s.set('timeout', 400)
             r = s.check()
         finally:
             s.pop()
